@@ -9,7 +9,8 @@ RULE = ('cases: a C01 string (molecule model x partition x rendering) plus 1-3 i
         'repeatedly grouping the current base graph into connected groups; each group becomes a coarse fragment '
         'written by the own base-graph writer with one labelled descriptor pair per crossing edge carrying that '
         "edge's order symbol; group-level edge order = number of crossing edges. Atomistic last level, and a "
-        'coarse last level (the atomistic block dropped: the last level must then reproduce the cut base graph). '
+        'coarse last level (the atomistic block dropped: the last level must then reproduce the cut base graph); 8 %: '
+        'block copolymers whose intermediate fragments use the multiplication operator, against the flat string. '
         'Oracle: final fine graph isomorphic to the model and to the two-level resolution; after each step the '
         'coarse graph IS the previous fine graph (same object); C02 mapping and C03 bonding invariants (dedicated '
         'pairs: exactly edge-order bonds) after every step; resolve() k times, resolve_iter() and resolve_all() on '
@@ -24,7 +25,50 @@ def budget(tier):
     return dict(examples=700, shards=4, procs=4)
 
 
+MONOMERS = {'PEO': '[$]COC[$]', 'PE': '[$]CC[$]', 'TFE': '[$]C(F)(F)[$]', 'DMS': '[$]CSC[$]', 'PA': '[$]C=C[$]'}
+CAPS = {'Me': 'C[$]', 'OH': 'O[$]', 'NH2': '[$]N', 'Cl': '[$]Cl'}
+
+
+def gen_blocks(R, tier):
+    """block copolymers written with the multiplication operator INSIDE the intermediate-level fragments:
+    {[#B0][#B1]..}.{#B0=[#Me][#PEO]|3[#PE]|2[>], #B1=[<][#PE]|4[#OH]}.{monomers} against the flat
+    {[#Me][#PEO]|3[#PE]|2[#PE]|4[#OH]}.{monomers}; symmetric monomers with unlabelled $ (a linear chain either way).
+    A multiplier that is followed by a bonding descriptor is |2 (open finding F22 of C13: other counts
+    shift the descriptor)"""
+    nb = R.randint(2, 4)
+    mons = R.sample(sorted(MONOMERS), R.randint(1, 3))
+    caps = R.sample(sorted(CAPS), 2)
+    blocks, flat = [], []
+    for b in range(nb):
+        if b < nb - 1:
+            # a descriptor follows: every multiplier in front of it is |2
+            runs = [(R.choice(mons), R.choice([1, 2, 2])) for _ in range(R.randint(1, 3))]
+            toks = ['[#%s]%s' % (m, '' if n == 1 else '|2') for m, n in runs]
+        else:
+            runs = [(R.choice(mons), R.choice([1, 2, 3, 5])) for _ in range(R.randint(1, 3))]
+            toks = ['[#%s]%s' % (m, '' if n == 1 and R.chance(0.7) else '|%d' % n) for m, n in runs]
+        if b == 0:
+            toks.insert(0, '[#%s]' % caps[0])
+        if b == nb - 1:
+            toks.append('[#%s]' % caps[1])
+        flat += toks
+        body = ''.join(toks)
+        lab = 'abcd'[b]
+        blocks.append('#B%d=%s%s%s' % (b, '[<%s]' % 'abcd'[b - 1] if b else '', body, '[>%s]' % lab if b < nb - 1 else ''))
+    used = set(mons) | set(caps)
+    frs = ['#%s=%s' % (k, v) for k, v in {**MONOMERS, **CAPS}.items() if k in used]
+    R.shuffle(frs)
+    R.shuffle(blocks)
+    top = ''.join('[#B%d]' % b for b in range(nb))
+    layered = '{%s}.{%s}.{%s}' % (top, ','.join(blocks), ','.join(frs))
+    two = '{%s}.{%s}' % (''.join(flat), ','.join(frs))
+    return dict(input=layered, two_level=two, last_all_atom=True, legacy=True, kind='blocks', dedicated=True, nlevels=2,
+                nfr=nb, features=sorted({'multiplier_inside_intermediate_fragment', 'blocks:%d' % nb, 'multi_group_level'}))
+
+
 def gen(R, tier):
+    if R.chance(0.08):
+        return gen_blocks(R, tier)
     coarse_last = R.chance(0.25)
     case = resgen.gen_cut_string(R, tier, min_frags=2, with_levels=R.choice([1, 1, 2, 2, 3]), shared_atoms=R.chance(0.3),
                                  virtual_in_levels=0.0 if coarse_last else R.choice([0.0, 0.0, 0.3]))
@@ -72,7 +116,15 @@ def oracle(case):
         prev_fine = fine
         steps.append(invariants.dump(fine))
     final = prev_fine
-    if aa:
+    if case['kind'] == 'blocks':
+        _, fine2 = sut(lambda: MoleculeResolver.from_string(case['two_level']).resolve_all())
+        try:
+            hg, hg2 = molgen.heavy_graph(final), molgen.heavy_graph(fine2)
+        except ValueError as e:
+            raise Fail('hydrogens:malformed', str(e))
+        expect(molgen.same_mol(hg2, hg), 'levels:differs-from-two-level',
+               lambda: 'layered: %s / flat %s: %s' % (molgen.describe(hg), case['two_level'], molgen.describe(hg2)))
+    elif aa:
         model_g = molgen.model_graph(case['model'])
         try:
             hg = molgen.heavy_graph(final)
